@@ -128,9 +128,119 @@ def deUfcs (traitRef : Toks) : Nat → Toks → Toks
               deUfcs traitRef fuel e ++ [p '.', i "borrow", parens []] ++ deUfcs traitRef fuel rest'
           | _ => t :: deUfcs traitRef fuel rest
 
+/-- … and up to a redundant block around the whole body (`{ { call } }` ≡ `{ call }`) -/
+def unwrapBlock : Nat → Toks → Toks
+  | 0, ts => ts
+  | fuel + 1, [.group .brace inner] => unwrapBlock fuel inner
+  | _, ts => ts
+
 def alignMember (traitRef : Toks) : GenMember → GenMember → GenMember
   | .fn _ _ (some mb), .fn a s (some rb) =>
-      if rb != mb && deUfcs traitRef (rb.length + 1) rb == mb then .fn a s (some mb) else .fn a s (some rb)
+      let rb' := unwrapBlock 4 rb
+      if rb != mb && (deUfcs traitRef (rb'.length + 1) rb' == mb) then .fn a s (some mb) else .fn a s (some rb)
+  | _, r => r
+
+/-! ### names of the macro's own binders
+
+  `EntraitT` (the type parameter of a generated impl / delegation-target trait) and `__impl` (the parameter that
+  stands for the dependency in an impl block's methods) are binders the macro invents; no user code can name them.
+  Where the real item has, at the position of the model's binder, a binder of another name — and the model's name
+  does not occur in the real item — the real item is read with the model's name (α-renaming, on every identifier
+  token of the item).  A name that collides with something the user wrote changes which binder those tokens refer
+  to and does not survive this reading unchanged. -/
+
+mutual
+def renTT (f t : String) : TT → TT
+  | .ident s => .ident (if s == f then t else s)
+  | .group d ts => .group d (renToks f t ts)
+  | x => x
+def renToks (f t : String) : List TT → List TT
+  | [] => []
+  | x :: xs => renTT f t x :: renToks f t xs
+end
+
+def renName (f t s : String) : String := if s == f then t else s
+
+def renTy (f t : String) : Ty → Ty
+  | .implTrait bs tr => .implTrait (bs.map (renToks f t)) tr
+  | .path q l n first toks => .path q l n (renName f t first) (renToks f t toks)
+  | .ref_ lt m e => .ref_ lt m (renTy f t e)
+  | .paren e => .paren (renTy f t e)
+  | .other toks => .other (renToks f t toks)
+
+def renPat (f t : String) : Pat → Pat
+  | .ident r m n sub => .ident r m (renName f t n) (sub.map (renToks f t))
+  | .other toks bs => .other (renToks f t toks) (bs.map (renName f t))
+
+def renGParam (f t : String) : GParam → GParam
+  | .ty a n bs bt d => .ty a (renName f t n) (bs.map (renToks f t)) bt (d.map (renToks f t))
+  | .lt a n bs bt => .lt a n (bs.map (renToks f t)) bt
+  | .const_ a n ty d => .const_ a (renName f t n) (renToks f t ty) (d.map (renToks f t))
+
+def renPred (f t : String) : WherePred → WherePred
+  | .ty l b bs bt => .ty (renToks f t l) (renTy f t b) (bs.map (renToks f t)) bt
+  | .other toks => .other (renToks f t toks)
+
+def renArg (f t : String) : FnArg → FnArg
+  | .recv a r m c => .recv a r m (c.map (renToks f t))
+  | .typed a pt ty => .typed a (renPat f t pt) (renTy f t ty)
+
+def renSig (f t : String) (s : Sig) : Sig :=
+  { s with generics := { s.generics with params := s.generics.params.map (renGParam f t), preds := s.generics.preds.map (renPred f t) },
+           inputs := s.inputs.map (renArg f t), output := s.output.map (renToks f t) }
+
+def renMember (f t : String) : GenMember → GenMember
+  | .fn a s b => .fn a (renSig f t s) (b.map (renToks f t))
+  | .raw ts => .raw (renToks f t ts)
+
+def renImpl (f t : String) (im : GenImpl) : GenImpl :=
+  { im with params := im.params.map (renGParam f t), traitRef := renToks f t im.traitRef, selfTy := renToks f t im.selfTy,
+            preds := im.preds.map (renPred f t), members := im.members.map (renMember f t) }
+
+def renTrait (f t : String) (tr : GenTrait) : GenTrait :=
+  { tr with params := tr.params.map (renGParam f t), supertraits := tr.supertraits.map (renToks f t),
+            preds := tr.preds.map (renPred f t), members := tr.members.map (renMember f t) }
+
+def mentionsIdent (s : String) (ts : Toks) : Bool := (TT.flattenList ts).contains (.ident s)
+
+/-- the real binder standing where the model's binder `name` stands in a parameter list -/
+def binderAt (name : String) : List GParam → List GParam → Option String
+  | .ty _ n _ _ _ :: ms, .ty _ n' _ _ _ :: rs => if n == name then (if n' == name then none else some n') else binderAt name ms rs
+  | _ :: ms, _ :: rs => binderAt name ms rs
+  | _, _ => none
+
+def argBinderAt (name : String) : List FnArg → List FnArg → Option String
+  | .typed _ (.ident _ _ n _) _ :: ms, .typed _ (.ident _ _ n' _) _ :: rs =>
+      if n == name then (if n' == name then none else some n') else argBinderAt name ms rs
+  | _ :: ms, _ :: rs => argBinderAt name ms rs
+  | _, _ => none
+
+def renameMemberToward : GenMember → GenMember → GenMember
+  | .fn _ ms _, .fn a rs b =>
+      match argBinderAt "__impl" ms.inputs rs.inputs with
+      | some y =>
+          let r := GenMember.fn a rs b
+          if mentionsIdent "__impl" r.print then r else renMember y "__impl" r
+      | none => .fn a rs b
+  | _, r => r
+
+def renameImplToward (mi ri : GenImpl) : GenImpl :=
+  let ri1 :=
+    match binderAt entraitT mi.params ri.params with
+    | some x => if mentionsIdent entraitT ri.print then ri else renImpl x entraitT ri
+    | none => ri
+  { ri1 with members := zipAlign renameMemberToward mi.members ri1.members }
+
+def renameTraitToward (mt rt : GenTrait) : GenTrait :=
+  let rt1 :=
+    match binderAt entraitT mt.params rt.params with
+    | some x => if mentionsIdent entraitT rt.print then rt else renTrait x entraitT rt
+    | none => rt
+  { rt1 with members := zipAlign renameMemberToward mt.members rt1.members }
+
+def renameItemToward : GenItem → GenItem → GenItem
+  | .impl mi, .impl ri => .impl (renameImplToward mi ri)
+  | .trait mt, .trait rt => .trait (renameTraitToward mt rt)
   | _, r => r
 
 def alignItem : GenItem → GenItem → GenItem
@@ -160,7 +270,7 @@ def permuteToward (model real : List GenItem) : List GenItem :=
 
 /-- the real generated items in the model's spelling (respelling of `EntraitT`'s bounds, order of bounds, order of items) -/
 def alignItems (model real : List GenItem) : List GenItem :=
-  zipAlign alignItem model (permuteToward model (real.map canonItem))
+  zipAlign alignItem model (zipAlign renameItemToward model (permuteToward model (real.map canonItem)))
 
 def realView (r : ROut) : View :=
   { origOk := r.prefixOk, parsed := r.parsed, inherent := r.inherent,
@@ -182,6 +292,21 @@ def transplantBodies (mv rv : View) : View :=
 def realViewToward (mv : View) (r : ROut) : View :=
   { origOk := r.prefixOk, parsed := r.parsed, inherent := r.inherent,
     inside := alignItems mv.inside r.inside, after := alignItems mv.after r.after }
+
+/-- a delegating body of the real expansion that differs from the model's and is not a recognised call expression -/
+def unrecognisedMember : GenMember → GenMember → Bool
+  | .fn _ _ (some mb), .fn _ _ (some rb) => rb != mb && (parseCall rb).isNone
+  | _, _ => false
+
+def zipAny {α : Type} (f : α → α → Bool) : List α → List α → Bool
+  | m :: ms, r :: rs => f m r || zipAny f ms rs
+  | _, _ => false
+
+def hasUnrecognisedBody (mv rv : View) : Bool :=
+  zipAny (fun m r => match m, r with
+    | .impl mi, .impl ri => zipAny unrecognisedMember mi.members ri.members
+    | .trait mt, .trait rt => zipAny unrecognisedMember mt.members rt.members
+    | _, _ => false) mv.items rv.items
 
 structure PropRow where
   id : String
@@ -279,7 +404,10 @@ def evalAll (v : Variant) (attr : Toks) (item : Item) (input : Toks) (m : Outcom
       let row (id : String) (f : View → Bool) : PropRow :=
         { id := id, k := if observable then some (projEq id mv rv) else none,
           pm := f mv, pr := if observable then some (f rv) else none,
-          bodyOnly := observable && !(f rv) && f rvB }
+          -- "only the spelling of a body is not recognised": some real body is not one of the call shapes at all.
+          -- A body that *is* a recognised call — with another callee, other arguments or another order — is judged
+          -- as it stands (a failing input), not set aside as a respelling
+          bodyOnly := observable && !(f rv) && f rvB && hasUnrecognisedBody mv rv }
       let rows : List PropRow :=
         [ row "C01" (P_C01 v attr item),
           { id := "C02", k := some (rv.origOk == mv.origOk || !stable),
